@@ -242,7 +242,7 @@ fn run<T: Sc>(case: &TrajCase) -> Check {
     out.nontrivial = nontrivial;
     out.count("clear_full_rank_states", full_states);
     out.class(case.base.weight_class());
-    out.class(format!("S={}", case.base.s()));
+    out.class(crate::gen::s_label(case.base.s()));
     out.class(case.base.flavour());
     for r in case.base.regime() {
         out.class(r);
